@@ -49,6 +49,15 @@ def adop? (t : String) : Option AdOp :=
 
 def ops? (s : String) : Option (List AdOp) := (listOf s).mapM adop?
 
+/-- for every operation: the whole concatenation of a vectored write's slices (what a gathering implementation hands to a
+    writer that really gathers), `none` for the other operations -/
+def gatherAlts (s : String) : List (Option (List Byte)) :=
+  (listOf s).map fun t =>
+    if t.startsWith "W" then
+      let body := (t.drop 1).toString
+      if body == "" then some [] else ((body.splitOn "+").mapM unhex?).map List.flatten
+    else none
+
 def showRd : RdRes → String
   | .ok n => s!"ok{n}"
   | .error k => s!"err{k}"
@@ -73,13 +82,30 @@ def isReadCall (s : String) : Bool := s.startsWith "R"
 
 /-- the C13 clause on an observed trace: the inner write/flush log is exactly the adapter-level
     write/flush sequence with identical bytes, and every result is returned unchanged -/
-def satC13 (ops : List AdOp) (results : List String) (log : List String) (innerId : Nat) : Bool :=
-  let expect := (ops.zip results).filterMap fun (op, r) =>
+def satC13 (ops : List AdOp) (results : List String) (log : List String) (innerId : Nat)
+    (alts : List (Option (List Byte)) := []) : Bool :=
+  -- a vectored write may reach the wrapped writer as the first non-empty slice (the trait's default) or, forwarded to
+  -- a writer that gathers, as the whole concatenation: once, and its result returned unchanged, in either case
+  let alts := alts ++ List.replicate (ops.length - alts.length) none
+  let expect : List (List String) := ((ops.zip alts).zip results).filterMap fun ((op, alt), r) =>
     match op with
-    | .write b => if r == "panic" then none else some s!"W{innerId}:{hex b}:{r.drop 1}"
-    | .flush => if r == "panic" then none else some s!"F{innerId}:{r.drop 1}"
+    | .write b =>
+      if r == "panic" then none else
+      some (s!"W{innerId}:{hex b}:{r.drop 1}" :: (match alt with | some a => [s!"W{innerId}:{hex a}:{r.drop 1}"] | none => []))
+    | .flush => if r == "panic" then none else some [s!"F{innerId}:{r.drop 1}"]
     | .read _ => none
-  expect == log.filter (fun c => !isReadCall c)
+  let wlog := log.filter (fun c => !isReadCall c)
+  expect.length == wlog.length && (expect.zip wlog).all fun (cands, l) => cands.contains l
+
+/-- did some vectored write reach the writer as the concatenation rather than as its first non-empty slice? -/
+def gathered (ops : List AdOp) (log : List String) (innerId : Nat) (alts : List (Option (List Byte))) : Bool :=
+  let alts := alts ++ List.replicate (ops.length - alts.length) none
+  let ws := (ops.zip alts).filterMap fun (op, alt) => match op with | .write b => some (b, alt) | _ => none
+  let wl := log.filter (fun c => c.startsWith "W")
+  (ws.zip wl).any fun ((b, alt), l) =>
+    match alt with
+    | some a => a != b && l.startsWith s!"W{innerId}:{hex a}:"
+    | none => false
 
 /-- C08 clauses on the implementation's own read log: `second` is not read before `first` has answered
     `Ok(0)` to a non-empty destination, and `first` is never read again afterwards -/
@@ -100,10 +126,15 @@ def satC08log (log : List String) : Bool :=
   go reads false false
 
 /-- `CH <srw1> <srw2> <ops> | <res> ; <log> ; <allocs> | <stdres> ; <stdlog>` -/
-def checkCH (pre impl std : List String) : Option (List String × Bool) := do
+def checkCH (pre impl std : List String) (std2 : List String := []) : Option (List String × Bool) := do
   let (s1, s2, ops) ← match pre with
     | [a, b, o] => do pure ((← srw? a), (← srw? b), (← ops? o))
     | _ => none
+  let alts := match pre with | [_, _, o] => gatherAlts o | _ => []
+  -- second reference: std's adapter over twins that really scatter / gather (what a forwarding implementation meets)
+  let (sres2, slog2) := match std2 with
+    | [r, ";", l] => (listOf r, listOf l)
+    | _ => ([], ["<none>"])
   let (ires, ilog, allocs) ← match impl with
     | [r, ";", l, ";", a] => do pure (listOf r, listOf l, (← a.toNat?))
     | _ => none
@@ -116,11 +147,15 @@ def checkCH (pre impl std : List String) : Option (List String × Bool) := do
   let mlogS := xf.log.map showCall
   let mut v : List String := []
   if mresS != ires || mlogS != ilog then v := "DRIFT" :: v
-  if mresS.filter isReadRes != ires.filter isReadRes || mlogS.filter isReadCall != ilog.filter isReadCall then v := "DIFF C08" :: v
-  if mresS.filter (!isReadRes ·) != ires.filter (!isReadRes ·) || mlogS.filter (!isReadCall ·) != ilog.filter (!isReadCall ·) then
+  let okStd1 := ires.filter isReadRes == sres && ilog.filter isReadCall == slog
+  let okStd2 := ires.filter isReadRes == sres2 && ilog.filter isReadCall == slog2
+  -- the model is the traits' default for vectored calls; an implementation that forwards them (and so agrees with std's
+  -- adapter over scattering / gathering twins instead) is compared with that reference, not with the model
+  if (okStd1 || !okStd2) && (mresS.filter isReadRes != ires.filter isReadRes || mlogS.filter isReadCall != ilog.filter isReadCall) then v := "DIFF C08" :: v
+  if !gathered ops ilog 2 alts && (mresS.filter (!isReadRes ·) != ires.filter (!isReadRes ·) || mlogS.filter (!isReadCall ·) != ilog.filter (!isReadCall ·)) then
     v := "DIFF C13" :: v
-  if ires.filter isReadRes != sres || ilog.filter isReadCall != slog || !satC08log ilog then v := "UNSAT C08" :: v
-  if !satC13 ops ires ilog 2 then v := "UNSAT C13" :: v
+  if !(okStd1 || okStd2) || !satC08log ilog then v := "UNSAT C08" :: v
+  if !satC13 ops ires ilog 2 alts then v := "UNSAT C13" :: v
   if ires.contains "panic" then v := "UNSAT C04" :: v
   if allocs != 0 then v := "UNSAT C18" :: v
   return (v, ops.length > 1)
@@ -199,10 +234,14 @@ def satC09 (limit : Nat) (ops : List AdOp) (results : List String) (log : List S
   go limit ops results (log.filter isReadCall)
 
 /-- `TK <srw> <limit> <ops> | <res> ; <log> ; <allocs> | <stdres> ; <stdlog>` -/
-def checkTK (oc : Bool) (pre impl std : List String) : Option (List String × Bool) := do
+def checkTK (oc : Bool) (pre impl std : List String) (std2 : List String := []) : Option (List String × Bool) := do
   let (s, limit, ops) ← match pre with
     | [a, l, o] => do pure ((← srw? a), (← l.toNat?), (← ops? o))
     | _ => none
+  let alts := match pre with | [_, _, o] => gatherAlts o | _ => []
+  let (sres2, slog2) := match std2 with
+    | [r, ";", l] => (listOf r, listOf l)
+    | _ => ([], ["<none>"])
   let (ires, ilog, allocs) ← match impl with
     | [r, ";", l, ";", a] => do pure (listOf r, listOf l, (← a.toNat?))
     | _ => none
@@ -214,11 +253,13 @@ def checkTK (oc : Bool) (pre impl std : List String) : Option (List String × Bo
   let mlogS := xf.log.map showCall
   let mut v : List String := []
   if mresS != ires || mlogS != ilog then v := "DRIFT" :: v
-  if mresS.filter isReadRes != ires.filter isReadRes || mlogS.filter isReadCall != ilog.filter isReadCall then v := "DIFF C09" :: v
-  if mresS.filter (!isReadRes ·) != ires.filter (!isReadRes ·) || mlogS.filter (!isReadCall ·) != ilog.filter (!isReadCall ·) then
+  let okStd1 := ires.filter isReadRes == sres && ilog.filter isReadCall == slog
+  let okStd2 := ires.filter isReadRes == sres2 && ilog.filter isReadCall == slog2
+  if (okStd1 || !okStd2) && (mresS.filter isReadRes != ires.filter isReadRes || mlogS.filter isReadCall != ilog.filter isReadCall) then v := "DIFF C09" :: v
+  if !gathered ops ilog s.id alts && (mresS.filter (!isReadRes ·) != ires.filter (!isReadRes ·) || mlogS.filter (!isReadCall ·) != ilog.filter (!isReadCall ·)) then
     v := "DIFF C13" :: v
-  if ires.filter isReadRes != sres || ilog.filter isReadCall != slog || !satC09 limit ops ires ilog then v := "UNSAT C09" :: v
-  if !satC13 ops ires ilog s.id then v := "UNSAT C13" :: v
+  if !(okStd1 || okStd2) || !satC09 limit ops ires ilog then v := "UNSAT C09" :: v
+  if !satC13 ops ires ilog s.id alts then v := "UNSAT C13" :: v
   if ires.contains "panic" then v := "UNSAT C04" :: v
   if allocs != 0 then v := "UNSAT C18" :: v
   return (v, ops.length > 1 && limit > 0)
